@@ -220,8 +220,9 @@ func (s *recStore) close() error  { return nil }
 // l1Store is the real l1infotreesync processor (through its verif facade); its content is read back through the
 // syncer's own query methods.
 type l1Store struct {
-	path string
-	s    *l1infotreesync.L1InfoTreeSync
+	reorgs int
+	path   string
+	s      *l1infotreesync.L1InfoTreeSync
 }
 
 func (s *l1Store) reopen() error {
@@ -248,7 +249,16 @@ func (s *l1Store) GetLastProcessedBlock(ctx context.Context) (uint64, error) {
 func (s *l1Store) ProcessBlock(ctx context.Context, b sync.Block) error {
 	return s.s.VerifProcessBlock(ctx, b)
 }
-func (s *l1Store) Reorg(ctx context.Context, first uint64) error { return s.s.VerifReorg(ctx, first) }
+func (s *l1Store) Reorg(ctx context.Context, first uint64) error {
+	// every other reorg runs while another goroutine of the node has a query in flight on the store's connection pool
+	if s.reorgs++; s.reorgs%2 == 1 {
+		if rows, err := s.s.VerifDB().Query(`SELECT 1 UNION ALL SELECT 2`); err == nil {
+			rows.Next()
+			defer rows.Close()
+		}
+	}
+	return s.s.VerifReorg(ctx, first)
+}
 
 func (s *l1Store) rows(ctx context.Context) ([]row, error) {
 	ctx = context.Background()
